@@ -454,3 +454,4 @@ def run(ctx) -> None:
     gap_free(ctx)
     listing_validity(ctx)
     r_cache(ctx)
+    shared.argname_scope(ctx, ('forml.io.asset', 'forml.provider.registry.filesystem'), floor=2)
